@@ -128,6 +128,9 @@ pub fn cases(tier: Tier) -> CaseSet {
     for (d, spec, _) in crate::c01::long_vector_family(Tier::Quick) {
         models.push((d, spec));
     }
+    for b in crate::c01::nonbmp_family() {
+        models.push((b.desc, b.spec));
+    }
     for (d, spec) in crate::c01::many_entries_family(Tier::Quick) {
         models.push((d, spec));
     }
